@@ -95,6 +95,12 @@ def check_assemble_trace_functionals(tier, seed):
             A_, B_, C_ = np.array([0, 0], dtype=np.int8), np.array([0, 1], dtype=np.int8), np.array([1, 0], dtype=np.int8)
             seq = [np.array([A_, A_, B_, B_])] * 4 + [np.array([A_, A_, B_, C_])] * 3 + [np.array([A_, B_, B_, C_])] * 3
             tr = np.array([[seq[i][rng.permutation(4)] for i in rng.permutation(10)]], dtype=np.int8)
+        if rep % 4 == 2:
+            # two diploid chains whose modes are {00,10} and {00,00} (the configuration of known finding F9)
+            ploidy, n_base, chains, steps, burn = 2, 2, 2, 4, 0
+            g1 = np.array([[0, 0], [1, 0]], dtype=np.int8)
+            g2 = np.array([[0, 0], [0, 0]], dtype=np.int8)
+            tr = np.array([[g1] * 4, [g2] * 4], dtype=np.int8)
         inp = {"trace": tr.tolist() if n_base < 10 else "shape %r (seed %d rep %d)" % (tr.shape, seed, rep), "burn": burn}
         post = oracle_posterior(tr, burn)
         ev += 1
